@@ -15,6 +15,7 @@ import (
 	"net"
 	"net/netip"
 	"strings"
+	"sync"
 	"testing"
 	"time"
 
@@ -62,6 +63,8 @@ var vfsPools = []vfsPool{
 	{netip.MustParsePrefix("2001:db8:1::/48"), vfsL("DE", 2)},
 	{netip.MustParsePrefix("2001:db8:2::/48"), vfsL("US", 5)},
 	{netip.MustParsePrefix("2001:db8:3::/48"), nil},
+	// A location whose ASN is not known (country database only).
+	{netip.MustParsePrefix("100.64.0.0/25"), vfsL("JP", 0)},
 }
 
 var vfsASNs = []geoip.ASN{1, 2, 3, 4, 5, 9}
@@ -156,6 +159,7 @@ func vfsPrefixes(i int) (res []netip.Prefix) {
 var vfsNames = []string{
 	"a.test", "x.a.test", "y.x.a.test", "b.test", "x.b.test", "ab.test", "a.b.test",
 	"c.example", "x.c.example", "test", "xa.test", "a.test.example",
+	"t", "x.t", "w.y.x.a.test",
 }
 
 var vfsRuleTypes = []uint16{dns.TypeA, dns.TypeAAAA, dns.TypeHTTPS, dns.TypeTXT, dns.TypeMX}
@@ -377,6 +381,12 @@ func vfsDrawRule(t *rapid.T, label string, allowException, root bool) (r vfsRule
 	}
 
 	r.Target = rapid.SampledFrom(vfsNames).Draw(t, label+"Target")
+	if r.Kind == vfsRuleHost && (r.Target == "t" || strings.HasSuffix(r.Target, ".t")) {
+		// urlfilter does not take a line whose top-level label has one letter
+		// for a plain domain: it becomes a substring pattern, which the
+		// reference matcher does not model.  Use the ||d^ form for these.
+		r.Kind = vfsRuleDomain
+	}
 	if r.Kind != vfsRuleHost && rapid.IntRange(0, 2).Draw(t, label+"Typed") == 0 {
 		r.Type = rapid.SampledFrom(vfsRuleTypes).Draw(t, label+"Type")
 		r.NegType = rapid.IntRange(0, 3).Draw(t, label+"Neg") == 0
@@ -470,7 +480,7 @@ func vfsDrawASNs(t *rapid.T, label string, focus []int, maxN int, related []geoi
 		}
 
 		pi := rapid.SampledFrom(focus).Draw(t, l+"Pool")
-		if loc := vfsPools[pi].Loc; loc != nil {
+		if loc := vfsPools[pi].Loc; loc != nil && loc.ASN != 0 {
 			asns = append(asns, loc.ASN)
 		} else {
 			asns = append(asns, 9)
@@ -544,7 +554,7 @@ func vfsDrawConfig(t *rapid.T, o vfsOpts) (c *vfsConfig) {
 			// or the ASN of a pool that a blocked subnet lies in.
 			rel := append([]geoip.ASN{}, a.BlockedASN...)
 			for _, b := range a.Blocked {
-				if loc := vfsLocOf(b.Addr()); loc != nil && b.Bits() > 0 {
+				if loc := vfsLocOf(b.Addr()); loc != nil && loc.ASN != 0 && b.Bits() > 0 {
 					rel = append(rel, loc.ASN)
 				}
 			}
@@ -612,26 +622,6 @@ type vfsRuleStatEv struct {
 	Text filter.RuleText
 }
 
-// vfsRec records every downstream event of the stack.
-type vfsRec struct {
-	Upstream    []string
-	ForConfig   int
-	FilterReq   int
-	FilterResp  int
-	QLog        []*querylog.Entry
-	Bill        []vfsBill
-	RuleStat    []vfsRuleStatEv
-	DNSDB       int
-	DNSCheck    int
-	HashMatch   int
-	RLCheck     int
-	RLCount     int
-	ProfRLCheck int
-	ProfRLCount int
-	Writes      []*dns.Msg
-	Errs        []string
-}
-
 // vfsTrace is the set of events of one request.
 type vfsTrace struct {
 	Upstream    []string
@@ -676,25 +666,29 @@ func (tr *vfsTrace) String() string {
 		tr.RLCheck, tr.RLCount, tr.ProfRLCheck, tr.ProfRLCount, tr.Errs)
 }
 
-func (r *vfsRec) since(b *vfsRec) (tr *vfsTrace) {
-	return &vfsTrace{
-		Upstream:    r.Upstream[len(b.Upstream):],
-		ForConfig:   r.ForConfig - b.ForConfig,
-		FilterReq:   r.FilterReq - b.FilterReq,
-		FilterResp:  r.FilterResp - b.FilterResp,
-		QLog:        r.QLog[len(b.QLog):],
-		Bill:        r.Bill[len(b.Bill):],
-		RuleStat:    r.RuleStat[len(b.RuleStat):],
-		DNSDB:       r.DNSDB - b.DNSDB,
-		DNSCheck:    r.DNSCheck - b.DNSCheck,
-		HashMatch:   r.HashMatch - b.HashMatch,
-		RLCheck:     r.RLCheck - b.RLCheck,
-		RLCount:     r.RLCount - b.RLCount,
-		ProfRLCheck: r.ProfRLCheck - b.ProfRLCheck,
-		ProfRLCount: r.ProfRLCount - b.ProfRLCount,
-		Writes:      r.Writes[len(b.Writes):],
-		Errs:        r.Errs[len(b.Errs):],
+// vfsLive is a request in flight: its events and the scripted behaviour of
+// the fakes for it.  Every fake attributes its event to the request whose ID
+// is in the context it was called with, so requests served concurrently are
+// told apart, and an event that carries no or a foreign request ID is kept as
+// an orphan (and fails the case).
+type vfsLive struct {
+	tr *vfsTrace
+	sc vfsScript
+}
+
+func (s *vfsStack) on(ctx context.Context, f func(tr *vfsTrace, sc *vfsScript)) {
+	s.mu.Lock()
+	defer s.mu.Unlock()
+
+	id, ok := agd.RequestIDFromContext(ctx)
+	l := s.live[id]
+	if !ok || l == nil {
+		f(s.orphan, &vfsScript{})
+
+		return
 	}
+
+	f(l.tr, &l.sc)
 }
 
 // Filtering outcomes scripted per request.
@@ -750,28 +744,32 @@ type vfsProfRL struct {
 // type check
 var _ agd.Ratelimiter = (*vfsProfRL)(nil)
 
-func (r *vfsProfRL) Check(_ context.Context, _ *dns.Msg, _ netip.Addr) (res agd.RatelimitResult) {
-	r.s.rec.ProfRLCheck++
-	switch r.s.script.ProfRL {
-	case vfsRLDrop:
-		return agd.RatelimitResultDrop
-	case vfsRLUseGlobal:
-		return agd.RatelimitResultUseGlobal
-	default:
-		return agd.RatelimitResultPass
-	}
+func (r *vfsProfRL) Check(ctx context.Context, _ *dns.Msg, _ netip.Addr) (res agd.RatelimitResult) {
+	res = agd.RatelimitResultPass
+	r.s.on(ctx, func(tr *vfsTrace, sc *vfsScript) {
+		tr.ProfRLCheck++
+		switch sc.ProfRL {
+		case vfsRLDrop:
+			res = agd.RatelimitResultDrop
+		case vfsRLUseGlobal:
+			res = agd.RatelimitResultUseGlobal
+		}
+	})
+
+	return res
 }
 
 func (r *vfsProfRL) Config() (conf *agd.RatelimitConfig) {
 	return &agd.RatelimitConfig{RPS: 100, Enabled: true}
 }
 
-func (r *vfsProfRL) CountResponses(_ context.Context, _ *dns.Msg, _ netip.Addr) {
-	r.s.rec.ProfRLCount++
+func (r *vfsProfRL) CountResponses(ctx context.Context, _ *dns.Msg, _ netip.Addr) {
+	r.s.on(ctx, func(tr *vfsTrace, _ *vfsScript) { tr.ProfRLCount++ })
 }
 
 type vfsRW struct {
 	s     *vfsStack
+	tr    *vfsTrace
 	local net.Addr
 	raddr net.Addr
 }
@@ -782,7 +780,11 @@ var _ dnsserver.ResponseWriter = (*vfsRW)(nil)
 func (w *vfsRW) LocalAddr() net.Addr  { return w.local }
 func (w *vfsRW) RemoteAddr() net.Addr { return w.raddr }
 func (w *vfsRW) WriteMsg(_ context.Context, _, resp *dns.Msg) (err error) {
-	w.s.rec.Writes = append(w.s.rec.Writes, resp.Copy())
+	// The writer belongs to its request, whatever the context says.
+	w.s.mu.Lock()
+	defer w.s.mu.Unlock()
+
+	w.tr.Writes = append(w.tr.Writes, resp.Copy())
 
 	return nil
 }
@@ -812,8 +814,9 @@ type vfsProfile struct {
 
 type vfsStack struct {
 	conf     *vfsConfig
-	rec      *vfsRec
-	script   *vfsScript
+	mu       sync.Mutex
+	live     map[agd.RequestID]*vfsLive
+	orphan   *vfsTrace
 	handlers map[string]dnsserver.Handler
 	servers  map[string]*agd.Server
 	profiles []*vfsProfile
@@ -837,10 +840,10 @@ func (s *vfsStack) lookup(idx [2]int, ok bool) (*agd.Profile, *agd.Device, error
 	return p.prof, p.devs[idx[1]], nil
 }
 
-func vfsUpstream(rec *vfsRec) dnsserver.Handler {
+func vfsUpstream(s *vfsStack) dnsserver.Handler {
 	return dnsserver.HandlerFunc(func(ctx context.Context, rw dnsserver.ResponseWriter, req *dns.Msg) (err error) {
 		q := req.Question[0]
-		rec.Upstream = append(rec.Upstream, strings.ToLower(q.Name))
+		s.on(ctx, func(tr *vfsTrace, _ *vfsScript) { tr.Upstream = append(tr.Upstream, strings.ToLower(q.Name)) })
 
 		resp := (&dns.Msg{}).SetReply(req)
 		resp.RecursionAvailable = true
@@ -887,16 +890,14 @@ func vfsUpstream(rec *vfsRec) dnsserver.Handler {
 func vfsNewStack(tb testing.TB, conf *vfsConfig) (s *vfsStack) {
 	s = &vfsStack{
 		conf:        conf,
-		rec:         &vfsRec{},
-		script:      &vfsScript{},
+		live:        map[agd.RequestID]*vfsLive{},
+		orphan:      &vfsTrace{},
 		handlers:    map[string]dnsserver.Handler{},
 		servers:     map[string]*agd.Server{},
 		byDevID:     map[agd.DeviceID][2]int{},
 		byLinked:    map[netip.Addr][2]int{},
 		byDedicated: map[netip.Addr][2]int{},
 	}
-	rec := s.rec
-
 	global, err := access.NewGlobal(vfsRuleTexts(conf.GlobalRules), conf.GlobalNets)
 	if err != nil {
 		tb.Fatalf("harness: access.NewGlobal(%q, %v): %v", vfsRuleTexts(conf.GlobalRules), conf.GlobalNets, err)
@@ -998,9 +999,9 @@ func vfsNewStack(tb testing.TB, conf *vfsConfig) (s *vfsStack) {
 	}
 
 	scripted := &agdtest.Filter{
-		OnFilterRequest: func(_ context.Context, r *filter.Request) (filter.Result, error) {
-			rec.FilterReq++
-			sc := s.script
+		OnFilterRequest: func(ctx context.Context, r *filter.Request) (filter.Result, error) {
+			var sc vfsScript
+			s.on(ctx, func(tr *vfsTrace, scp *vfsScript) { tr.FilterReq++; sc = *scp })
 			switch sc.Outcome {
 			case vfsOutReqBlocked:
 				return &filter.ResultBlocked{List: sc.List, Rule: sc.Rule}, nil
@@ -1026,9 +1027,9 @@ func vfsNewStack(tb testing.TB, conf *vfsConfig) (s *vfsStack) {
 				return nil, nil
 			}
 		},
-		OnFilterResponse: func(_ context.Context, _ *filter.Response) (filter.Result, error) {
-			rec.FilterResp++
-			sc := s.script
+		OnFilterResponse: func(ctx context.Context, _ *filter.Response) (filter.Result, error) {
+			var sc vfsScript
+			s.on(ctx, func(tr *vfsTrace, scp *vfsScript) { tr.FilterResp++; sc = *scp })
 			switch sc.Outcome {
 			case vfsOutRespBlocked:
 				return &filter.ResultBlocked{List: sc.List, Rule: sc.Rule}, nil
@@ -1047,20 +1048,20 @@ func vfsNewStack(tb testing.TB, conf *vfsConfig) (s *vfsStack) {
 		},
 	}
 	empty := &agdtest.Filter{
-		OnFilterRequest: func(_ context.Context, _ *filter.Request) (filter.Result, error) {
-			rec.FilterReq++
+		OnFilterRequest: func(ctx context.Context, _ *filter.Request) (filter.Result, error) {
+			s.on(ctx, func(tr *vfsTrace, _ *vfsScript) { tr.FilterReq++ })
 
 			return nil, nil
 		},
-		OnFilterResponse: func(_ context.Context, _ *filter.Response) (filter.Result, error) {
-			rec.FilterResp++
+		OnFilterResponse: func(ctx context.Context, _ *filter.Response) (filter.Result, error) {
+			s.on(ctx, func(tr *vfsTrace, _ *vfsScript) { tr.FilterResp++ })
 
 			return nil, nil
 		},
 	}
 	fltStrg := &agdtest.FilterStorage{
-		OnForConfig: func(_ context.Context, c filter.Config) filter.Interface {
-			rec.ForConfig++
+		OnForConfig: func(ctx context.Context, c filter.Config) filter.Interface {
+			s.on(ctx, func(tr *vfsTrace, _ *vfsScript) { tr.ForConfig++ })
 			if c == nil {
 				// Filtering is disabled for the profile or the device.
 				return empty
@@ -1072,18 +1073,17 @@ func vfsNewStack(tb testing.TB, conf *vfsConfig) (s *vfsStack) {
 	}
 
 	rl := agdtest.NewRateLimit()
-	rl.OnIsRateLimited = func(_ context.Context, _ *dns.Msg, _ netip.Addr) (drop, allowlisted bool, err error) {
-		rec.RLCheck++
-		switch s.script.GlobalRL {
-		case vfsRLDrop:
-			return true, false, nil
-		case vfsRLAllowlisted:
-			return false, true, nil
-		default:
-			return false, false, nil
-		}
+	rl.OnIsRateLimited = func(ctx context.Context, _ *dns.Msg, _ netip.Addr) (drop, allowlisted bool, err error) {
+		s.on(ctx, func(tr *vfsTrace, sc *vfsScript) {
+			tr.RLCheck++
+			drop, allowlisted = sc.GlobalRL == vfsRLDrop, sc.GlobalRL == vfsRLAllowlisted
+		})
+
+		return drop, allowlisted, nil
 	}
-	rl.OnCountResponses = func(_ context.Context, _ *dns.Msg, _ netip.Addr) { rec.RLCount++ }
+	rl.OnCountResponses = func(ctx context.Context, _ *dns.Msg, _ netip.Addr) {
+		s.on(ctx, func(tr *vfsTrace, _ *vfsScript) { tr.RLCount++ })
+	}
 
 	fltGrp := &agd.FilteringGroup{
 		FilterConfig: &filter.ConfigGroup{
@@ -1129,30 +1129,36 @@ func vfsNewStack(tb testing.TB, conf *vfsConfig) (s *vfsStack) {
 		StructuredErrors: agdtest.NewSDEConfig(true),
 		AccessManager:    global,
 		BillStat: &agdtest.BillStatRecorder{
-			OnRecord: func(_ context.Context, id agd.DeviceID, c geoip.Country, a geoip.ASN, start time.Time, p agd.Protocol) {
-				rec.Bill = append(rec.Bill, vfsBill{Dev: id, Ctry: c, ASN: a, Start: start, Proto: p})
+			OnRecord: func(ctx context.Context, id agd.DeviceID, c geoip.Country, a geoip.ASN, start time.Time, p agd.Protocol) {
+				s.on(ctx, func(tr *vfsTrace, _ *vfsScript) {
+					tr.Bill = append(tr.Bill, vfsBill{Dev: id, Ctry: c, ASN: a, Start: start, Proto: p})
+				})
 			},
 		},
 		CacheManager: agdcache.EmptyManager{},
 		DNSCheck: &agdtest.DNSCheck{
-			OnCheck: func(_ context.Context, _ *dns.Msg, _ *agd.RequestInfo) (*dns.Msg, error) {
-				rec.DNSCheck++
+			OnCheck: func(ctx context.Context, _ *dns.Msg, _ *agd.RequestInfo) (*dns.Msg, error) {
+				s.on(ctx, func(tr *vfsTrace, _ *vfsScript) { tr.DNSCheck++ })
 
 				return nil, nil
 			},
 		},
 		DNSDB: &agdtest.DNSDB{
-			OnRecord: func(_ context.Context, _ *dns.Msg, _ *agd.RequestInfo) { rec.DNSDB++ },
+			OnRecord: func(ctx context.Context, _ *dns.Msg, _ *agd.RequestInfo) {
+				s.on(ctx, func(tr *vfsTrace, _ *vfsScript) { tr.DNSDB++ })
+			},
 		},
 		ErrColl: &agdtest.ErrorCollector{
-			OnCollect: func(_ context.Context, err error) { rec.Errs = append(rec.Errs, err.Error()) },
+			OnCollect: func(ctx context.Context, err error) {
+				s.on(ctx, func(tr *vfsTrace, _ *vfsScript) { tr.Errs = append(tr.Errs, err.Error()) })
+			},
 		},
 		FilterStorage: fltStrg,
 		GeoIP:         geo,
-		Handler:       vfsUpstream(rec),
+		Handler:       vfsUpstream(s),
 		HashMatcher: &agdtest.HashMatcher{
-			OnMatchByPrefix: func(_ context.Context, _ string) ([]string, bool, error) {
-				rec.HashMatch++
+			OnMatchByPrefix: func(ctx context.Context, _ string) ([]string, bool, error) {
+				s.on(ctx, func(tr *vfsTrace, _ *vfsScript) { tr.HashMatch++ })
 
 				return nil, false, nil
 			},
@@ -1160,9 +1166,9 @@ func vfsNewStack(tb testing.TB, conf *vfsConfig) (s *vfsStack) {
 		ProfileDB:            profDB,
 		PrometheusRegisterer: agdtest.NewTestPrometheusRegisterer(),
 		QueryLog: &agdtest.QueryLog{
-			OnWrite: func(_ context.Context, e *querylog.Entry) error {
+			OnWrite: func(ctx context.Context, e *querylog.Entry) error {
 				cp := *e
-				rec.QLog = append(rec.QLog, &cp)
+				s.on(ctx, func(tr *vfsTrace, _ *vfsScript) { tr.QLog = append(tr.QLog, &cp) })
 				if s.qlogSink != nil {
 					return s.qlogSink(e)
 				}
@@ -1172,8 +1178,8 @@ func vfsNewStack(tb testing.TB, conf *vfsConfig) (s *vfsStack) {
 		},
 		RateLimit: rl,
 		RuleStat: &agdtest.RuleStat{
-			OnCollect: func(_ context.Context, id filter.ID, text filter.RuleText) {
-				rec.RuleStat = append(rec.RuleStat, vfsRuleStatEv{ID: id, Text: text})
+			OnCollect: func(ctx context.Context, id filter.ID, text filter.RuleText) {
+				s.on(ctx, func(tr *vfsTrace, _ *vfsScript) { tr.RuleStat = append(tr.RuleStat, vfsRuleStatEv{ID: id, Text: text}) })
 			},
 		},
 		MetricsNamespace: "vfs",
@@ -1217,8 +1223,11 @@ type vfsRequest struct {
 	EDNS     bool
 	DO       bool
 	ECS      netip.Prefix
-	BadECS   bool // malformed ECS option on the wire (stray host bits)
-	BadSNI   bool // invalid device ID under the device domain
+	ECSFirst bool   // the ECS option precedes the CPE-ID option
+	Canceled bool   // the caller's context is already cancelled
+	NearMiss string // the one component changed relative to the previous request, if derived from it
+	BadECS   bool   // malformed ECS option on the wire (stray host bits)
+	BadSNI   bool   // invalid device ID under the device domain
 	Script   vfsScript
 	ReqID    agd.RequestID
 	Start    time.Time
@@ -1242,9 +1251,9 @@ func (r *vfsRequest) Host() string {
 func (r *vfsRequest) Debug() bool { return r.QClass == dns.ClassCHAOS }
 
 func (r *vfsRequest) String() string {
-	return fmt.Sprintf("req{%s client=%s(16=%t) local=%s sni=%q cpe=%q id=%s prof=%d dev=%d unknownDedicated=%t q=%s/%s/%s ecs=%v badECS=%t outcome=%s rl=%s/%s}",
+	return fmt.Sprintf("req{%s client=%s(16=%t) local=%s sni=%q cpe=%q id=%s prof=%d dev=%d unknownDedicated=%t q=%s/%s/%s ecs=%v badECS=%t ecsFirst=%t canceled=%t nearMiss=%q outcome=%s rl=%s/%s}",
 		r.Server, r.Client, r.Client16, r.Local, r.SNI, r.CPEID, r.IDMode, r.Prof, r.Dev, r.UnknownDedicated,
-		r.Name, dns.TypeToString[r.QType], dns.ClassToString[r.QClass], r.ECS, r.BadECS,
+		r.Name, dns.TypeToString[r.QType], dns.ClassToString[r.QClass], r.ECS, r.BadECS, r.ECSFirst, r.Canceled, r.NearMiss,
 		r.Script.Describe(), vfsRLNames[r.Script.GlobalRL], vfsRLNames[r.Script.ProfRL])
 }
 
@@ -1306,8 +1315,186 @@ var vfsRuleTextPool = []filter.RuleText{
 }
 
 // vfsDrawRequest draws the next request against s.
-func vfsDrawRequest(t *rapid.T, s *vfsStack, o vfsOpts) (r *vfsRequest) {
+// resolve derives, from what the request presents, which profile and device it
+// belongs to (by construction of the documented identification order: device
+// ID from the TLS server name / CPE-ID option first, then the dedicated local
+// address on the interface-bound server, then the linked client address).
+func (r *vfsRequest) resolve(s *vfsStack) {
+	r.Prof, r.Dev, r.UnknownDedicated = -1, -1, false
+	set := func(idx [2]int, ok bool) {
+		if ok {
+			r.Prof, r.Dev = idx[0], idx[1]
+		}
+	}
+
+	switch {
+	case r.BadSNI:
+	case r.Server == vfsSrvDoT:
+		if id, ok := strings.CutSuffix(strings.ToLower(r.SNI), "."+vfsDeviceDomain); ok {
+			idx, found := s.byDevID[agd.DeviceID(id)]
+			set(idx, found)
+		}
+	case r.CPEID != "":
+		idx, found := s.byDevID[agd.DeviceID(r.CPEID)]
+		set(idx, found)
+	case r.Server == vfsSrvDNSIf:
+		idx, found := s.byDedicated[r.Local.Addr()]
+		set(idx, found)
+		r.UnknownDedicated = !found
+	default:
+		idx, found := s.byLinked[r.Client]
+		set(idx, found)
+	}
+}
+
+// vfsNearMiss returns a copy of prev with exactly one component changed that
+// the code must distinguish, or nil if the drawn change does not apply.
+func vfsNearMiss(t *rapid.T, s *vfsStack, o vfsOpts, prev *vfsRequest) (r *vfsRequest) {
+	cp := *prev
+	r = &cp
+	r.ID = uint16(rapid.IntRange(0, 65535).Draw(t, "nmMsgID"))
+	r.Canceled = false
+	kind := rapid.SampledFrom([]string{"client", "client", "qtype", "qtype", "case", "label", "label", "anon", "anon", "anon", "device", "device", "device", "device", "class", "ecs"}).Draw(t, "nmKind")
+	r.NearMiss = kind
+	switch kind {
+	case "client":
+		// A neighbour in the same pool (often across a prefix boundary).
+		if prev.IDMode == "dns-linked" {
+			return nil
+		}
+
+		for pi := range vfsPools {
+			if !vfsPools[pi].Pfx.Contains(prev.Client) {
+				continue
+			}
+
+			cl := vfsClients(pi)
+			for i, a := range cl {
+				if a == prev.Client {
+					d := rapid.SampledFrom([]int{-1, 1}).Draw(t, "nmClientDir")
+					r.Client = cl[(i+d+len(cl))%len(cl)]
+
+					break
+				}
+			}
+		}
+
+		if r.Client == prev.Client {
+			return nil
+		}
+	case "qtype":
+		types := vfsRuleTypes
+		if o.Root {
+			types = append(append([]uint16{}, vfsRuleTypes...), vfsRootTypes...)
+		}
+
+		r.QType = rapid.SampledFrom(types).Draw(t, "nmQType")
+		if r.QType == prev.QType {
+			return nil
+		}
+	case "case":
+		if up := strings.ToUpper(prev.Name); up != prev.Name {
+			r.Name = up
+		} else if low := strings.ToLower(prev.Name); low != prev.Name {
+			r.Name = low
+		} else {
+			return nil
+		}
+	case "label":
+		// One label more or one label less.
+		host := strings.TrimSuffix(prev.Name, ".")
+		switch {
+		case host == "":
+			r.Name = "test."
+		case rapid.Bool().Draw(t, "nmLabelAdd"):
+			r.Name = "x." + prev.Name
+		default:
+			_, rest, ok := strings.Cut(host, ".")
+			if !ok {
+				if !o.Root {
+					return nil
+				}
+
+				rest = ""
+			}
+
+			r.Name = rest + "."
+			if rest == "" {
+				r.QType = rapid.SampledFrom(vfsRootTypes).Draw(t, "nmRootQType")
+			}
+		}
+	case "anon":
+		// The same client without the identification.
+		if prev.Prof < 0 || prev.Server == vfsSrvDNSIf || prev.IDMode == "dns-linked" {
+			return nil
+		}
+
+		r.SNI, r.CPEID, r.IDMode = "", "", prev.IDMode+"-dropped"
+	case "device":
+		// The same request as another device (of the same or another
+		// profile).
+		if prev.IDMode != "dot-sni" && prev.IDMode != "dns-cpe" {
+			return nil
+		}
+
+		var ids []string
+		for _, p := range s.conf.Profiles {
+			for _, d := range p.Devices {
+				if d.ID != prev.CPEID && d.ID+"."+vfsDeviceDomain != prev.SNI {
+					ids = append(ids, d.ID)
+				}
+			}
+		}
+
+		if len(ids) == 0 {
+			return nil
+		}
+
+		id := rapid.SampledFrom(ids).Draw(t, "nmDevice")
+		if prev.IDMode == "dot-sni" {
+			r.SNI = id + "." + vfsDeviceDomain
+		} else {
+			r.CPEID = id
+		}
+	case "class":
+		if prev.QClass == dns.ClassINET {
+			r.QClass = dns.ClassCHAOS
+		} else {
+			r.QClass = dns.ClassINET
+		}
+	case "ecs":
+		if prev.BadECS {
+			return nil
+		}
+
+		if prev.ECS.IsValid() {
+			r.ECS = netip.Prefix{}
+		} else {
+			ep := rapid.IntRange(0, len(vfsPools)-1).Draw(t, "nmECSPool")
+			base := vfsPools[ep].Pfx.Addr()
+			if base.Is4() {
+				r.ECS = netip.PrefixFrom(base, 24).Masked()
+			} else {
+				r.ECS = netip.PrefixFrom(base, 48)
+			}
+
+			r.EDNS = true
+		}
+	}
+
+	r.resolve(s)
+
+	return r
+}
+
+func vfsDrawRequest(t *rapid.T, s *vfsStack, o vfsOpts, prev *vfsRequest) (r *vfsRequest) {
 	conf := s.conf
+	if prev != nil && rapid.IntRange(0, 2).Draw(t, "nearMiss") == 0 {
+		if r = vfsNearMiss(t, s, o, prev); r != nil {
+			return r
+		}
+	}
+
 	r = &vfsRequest{Prof: -1, Dev: -1}
 
 	// Which profile/device the client will try to be.
@@ -1334,7 +1521,6 @@ func vfsDrawRequest(t *rapid.T, s *vfsStack, o vfsOpts) (r *vfsRequest) {
 	}
 
 	r.IDMode = rapid.SampledFrom(modes).Draw(t, "idMode")
-	known := false
 	switch r.IDMode {
 	case "dot-none":
 		r.Server, r.Local = vfsSrvDoT, vfsDoTAddr
@@ -1342,7 +1528,6 @@ func vfsDrawRequest(t *rapid.T, s *vfsStack, o vfsOpts) (r *vfsRequest) {
 		r.Server, r.Local, r.SNI = vfsSrvDoT, vfsDoTAddr, "dns.vfs.example"
 	case "dot-sni":
 		r.Server, r.Local, r.SNI = vfsSrvDoT, vfsDoTAddr, dc.ID+"."+vfsDeviceDomain
-		known = true
 	case "dot-sni-unknown":
 		r.Server, r.Local, r.SNI = vfsSrvDoT, vfsDoTAddr, "nodev."+vfsDeviceDomain
 	case "dot-bad-sni":
@@ -1353,21 +1538,14 @@ func vfsDrawRequest(t *rapid.T, s *vfsStack, o vfsOpts) (r *vfsRequest) {
 		r.Server, r.Local = vfsSrvDNS, vfsDNSAddr
 	case "dns-cpe":
 		r.Server, r.Local, r.CPEID = vfsSrvDNS, vfsDNSAddr, dc.ID
-		known = true
 	case "dns-cpe-unknown":
 		r.Server, r.Local, r.CPEID = vfsSrvDNS, vfsDNSAddr, "nodev"
 	case "dns-linked":
 		r.Server, r.Local = vfsSrvDNS, vfsDNSAddr
 	case "dnsif-dedicated":
 		r.Server, r.Local = vfsSrvDNSIf, netip.AddrPortFrom(dc.Dedicated, 53)
-		known = true
 	case "dnsif-unknown":
 		r.Server, r.Local = vfsSrvDNSIf, netip.AddrPortFrom(netip.AddrFrom4([4]byte{10, 0, 1, 200}), 53)
-		r.UnknownDedicated = true
-	}
-
-	if known {
-		r.Prof, r.Dev = pi, di
 	}
 
 	// Client address.
@@ -1398,13 +1576,7 @@ func vfsDrawRequest(t *rapid.T, s *vfsStack, o vfsOpts) (r *vfsRequest) {
 
 	r.Client16 = r.Client.Is4() && rapid.IntRange(0, 3).Draw(t, "client16") == 0
 
-	// On the plain-DNS server without a device ID, a client whose address is
-	// some device's linked address is that device.
-	if r.Server == vfsSrvDNS && r.CPEID == "" {
-		if idx, ok := s.byLinked[r.Client]; ok {
-			r.Prof, r.Dev = idx[0], idx[1]
-		}
-	}
+	r.resolve(s)
 
 	// Question.
 	var targets []string
@@ -1482,6 +1654,9 @@ func vfsDrawRequest(t *rapid.T, s *vfsStack, o vfsOpts) (r *vfsRequest) {
 	if o.Malformed && rapid.IntRange(0, 6).Draw(t, "badECS") == 0 {
 		r.BadECS, r.ECS, r.EDNS = true, netip.Prefix{}, true
 	}
+
+	r.ECSFirst = rapid.Bool().Draw(t, "ecsFirst")
+	r.Canceled = o.Malformed && rapid.IntRange(0, 19).Draw(t, "canceled") == 0
 
 	// Scripted downstream behaviour.
 	r.Script.Outcome = rapid.SampledFrom([]int{
@@ -1603,7 +1778,18 @@ func vfsAccessVerdict(conf *vfsConfig, r *vfsRequest) (v vfsVerdict) {
 
 // serve sends r through the handler of its server and returns the events it
 // caused.
-func (s *vfsStack) serve(t *rapid.T, r *vfsRequest) (tr *vfsTrace) {
+// vfsPrepared is a request ready to be handed to the handler.
+type vfsPrepared struct {
+	r   *vfsRequest
+	ctx context.Context
+	req *dns.Msg
+	rw  *vfsRW
+	tr  *vfsTrace
+}
+
+// prepare builds the message (through the wire), the addresses and the context
+// of r.
+func (s *vfsStack) prepare(t *rapid.T, r *vfsRequest) (p *vfsPrepared) {
 	m := &dns.Msg{}
 	m.Id = r.ID
 	m.RecursionDesired = true
@@ -1611,8 +1797,9 @@ func (s *vfsStack) serve(t *rapid.T, r *vfsRequest) (tr *vfsTrace) {
 	if r.EDNS {
 		m.SetEdns0(1232, r.DO)
 		opt := m.IsEdns0()
+		var cpe, ecs []dns.EDNS0
 		if r.CPEID != "" {
-			opt.Option = append(opt.Option, &dns.EDNS0_LOCAL{Code: 65074, Data: []byte(r.CPEID)})
+			cpe = append(cpe, &dns.EDNS0_LOCAL{Code: 65074, Data: []byte(r.CPEID)})
 		}
 
 		if r.BadECS {
@@ -1624,7 +1811,7 @@ func (s *vfsStack) serve(t *rapid.T, r *vfsRequest) (tr *vfsTrace) {
 				data = []byte{0, 2, 47, 0, 0x20, 1, 0xd, 0xb8, 0, 1}
 			}
 
-			opt.Option = append(opt.Option, &dns.EDNS0_LOCAL{Code: dns.EDNS0SUBNET, Data: data})
+			ecs = append(ecs, &dns.EDNS0_LOCAL{Code: dns.EDNS0SUBNET, Data: data})
 		}
 
 		if r.ECS.IsValid() {
@@ -1633,9 +1820,15 @@ func (s *vfsStack) serve(t *rapid.T, r *vfsRequest) (tr *vfsTrace) {
 				fam = 2
 			}
 
-			opt.Option = append(opt.Option, &dns.EDNS0_SUBNET{
+			ecs = append(ecs, &dns.EDNS0_SUBNET{
 				Code: dns.EDNS0SUBNET, Family: fam, SourceNetmask: uint8(r.ECS.Bits()), Address: r.ECS.Addr().AsSlice(),
 			})
+		}
+
+		if r.ECSFirst {
+			opt.Option = append(append(opt.Option, ecs...), cpe...)
+		} else {
+			opt.Option = append(append(opt.Option, cpe...), ecs...)
 		}
 	}
 
@@ -1671,13 +1864,78 @@ func (s *vfsStack) serve(t *rapid.T, r *vfsRequest) (tr *vfsTrace) {
 	ctx = dnsserver.ContextWithServerInfo(ctx, &dnsserver.ServerInfo{Name: string(srv.Name), Addr: r.Local.String(), Proto: srv.Protocol})
 	ctx = dnsserver.ContextWithRequestInfo(ctx, &dnsserver.RequestInfo{StartTime: r.Start, TLSServerName: r.SNI})
 	ctx = agd.WithRequestID(ctx, r.ReqID)
+	if r.Canceled {
+		var cancel context.CancelFunc
+		ctx, cancel = context.WithCancel(ctx)
+		cancel()
+	}
 
-	*s.script = r.Script
-	before := *s.rec
-	rw := &vfsRW{s: s, local: laddr, raddr: raddr}
-	err = s.handlers[r.Server].ServeDNS(ctx, rw, req)
-	tr = s.rec.since(&before)
-	tr.Err = err
+	tr := &vfsTrace{}
 
-	return tr
+	return &vfsPrepared{r: r, ctx: ctx, req: req, tr: tr, rw: &vfsRW{s: s, tr: tr, local: laddr, raddr: raddr}}
+}
+
+// run hands p to the handler of its server and returns the events it caused.
+// It may be called from several goroutines at once.
+func (s *vfsStack) run(p *vfsPrepared) (tr *vfsTrace) {
+	s.mu.Lock()
+	s.live[p.r.ReqID] = &vfsLive{tr: p.tr, sc: p.r.Script}
+	s.mu.Unlock()
+
+	err := s.handlers[p.r.Server].ServeDNS(p.ctx, p.rw, p.req)
+
+	s.mu.Lock()
+	delete(s.live, p.r.ReqID)
+	p.tr.Err = err
+	s.mu.Unlock()
+
+	return p.tr
+}
+
+// serve sends r through the handler of its server and returns the events it
+// caused.
+func (s *vfsStack) serve(t *rapid.T, r *vfsRequest) (tr *vfsTrace) {
+	return s.run(s.prepare(t, r))
+}
+
+// serveConcurrently serves all of rs at the same time (start barrier) and
+// returns their traces in the same order.
+func (s *vfsStack) serveConcurrently(t *rapid.T, rs []*vfsRequest) (trs []*vfsTrace) {
+	ps := make([]*vfsPrepared, len(rs))
+	for i, r := range rs {
+		ps[i] = s.prepare(t, r)
+	}
+
+	trs = make([]*vfsTrace, len(rs))
+	panics := make([]any, len(rs))
+	start := make(chan struct{})
+	wg := sync.WaitGroup{}
+	for i := range ps {
+		wg.Add(1)
+		go func(i int) {
+			defer wg.Done()
+			defer func() { panics[i] = recover() }()
+			<-start
+			trs[i] = s.run(ps[i])
+		}(i)
+	}
+
+	close(start)
+	wg.Wait()
+	for i, p := range panics {
+		if p != nil {
+			t.Fatalf("panic while serving %s concurrently: %v", rs[i], p)
+		}
+	}
+
+	return trs
+}
+
+// Orphans is the number of events that carried no request ID or the ID of a
+// request that was not in flight.
+func (s *vfsStack) Orphans() (n int, desc string) {
+	s.mu.Lock()
+	defer s.mu.Unlock()
+
+	return s.orphan.Downstream() + len(s.orphan.Writes), s.orphan.String()
 }
